@@ -280,7 +280,27 @@ def _confusable_literals(ctx):
         check_program(ctx, None, node, prog, [tuple(m[0] for m in order), tuple(m[-1] for m in order)], bag)
 
 
+def _containers_x_pool(ctx):
+    """Every container kind, also with elements that are loaded as is (Any / object), against the whole hostile pool: the acceptance
+    set of a container is a property of the container, whatever its element loaders are (seeded change: dict(data) fast path for
+    Dict[Any, Any] accepted lists of pairs and empty iterables)."""
+    from ..hostile import POOL  # noqa: PLC0415
+    from ..workload import ONE_SHOT  # noqa: PLC0415
+
+    A, O, I, S = spec.AnyT, lambda: spec.SCALAR_BY_KIND["object"], spec.IntT, spec.StrT
+    nodes = [spec.DictT(k, kk(), vv()) for k in ("Dict", "dict", "Mapping", "MutableMapping", "DefaultDict", "defaultdict") if k in spec.DICTS
+             for kk, vv in ((A, A), (O, O), (S, A), (S, I))]
+    nodes += [spec.IterT(k, e()) for k in ("List", "list", "Set", "FrozenSet", "Sequence", "MutableSequence", "Deque", "VarTuple", "Iterable", "Collection") if k in spec.ITERABLES
+              for e in (A, O, I)]
+    nodes += [spec.TupleT([A(), A()]), spec.TupleT([A()]), spec.TupleT([I(), S()])]
+    bag = [(lbl, fac, lbl in ONE_SHOT) for lbl, fac in POOL]
+    for n in nodes:
+        ctx.count("container_pool_programs")
+        check_program(ctx, None, n, Program(n), [], bag)
+
+
 DIRECTED = {
+    "containers-x-pool": _containers_x_pool,
     "confusable-literals-in-one-type": _confusable_literals,
     "literal-bytes-strict": _directed(spec.LiteralT((b"abc", 1)), "YWJj"),
     "scalar-table": lambda ctx: [check_program(ctx, None, n, Program(n), [], [(lbl, fac, lbl in ("iter([1,2])", "generator")) for lbl, fac in __import__("vlib.hostile", fromlist=["POOL"]).POOL])
